@@ -42,6 +42,13 @@ TECHNIQUE = "stateless model checking of the implementation (virtual-time schedu
 INTERVAL = 4
 
 
+def fresh(name):
+    """An event type equal to `name`, but a new str object (as read from a configuration file)."""
+    out = ''.join(list(name))
+    assert out == name and (len(name) < 2 or out is not name)
+    return out
+
+
 def configs(tier):
     out = []
     # the destination's handler holds the CPU for longer than the interval during one delivery:
@@ -50,6 +57,14 @@ def configs(tier):
         for at in (0, 1, 2):
             for hold in (0.5, 1, 2.5, 3):
                 out.append(dict(kind='stall', count=count, at=at, hold=hold))
+    # an event reaches the Repeat block during the clean-up, after the block itself was stopped
+    # (another block says its last word in stop() / at the end of a slow stop_async()):
+    # it is still forwarded at once with repeat=0, and nothing is re-sent afterwards
+    for count in (None, 0, 2):
+        for prior in (None, 1, 5, 9):
+            for how in ('stop', 'stop_async'):
+                for variant in ('explicit', 'implicit'):
+                    out.append(dict(kind='late', count=count, prior=prior, how=how, variant=variant))
     counts = [None, 0, 1, 3]
     gaps = [0, 1, 3, 4, 5, 7, 8, 9]
     maxn = 3 if tier == 'quick' else 4
@@ -199,9 +214,9 @@ def one_exec(cfg, chooser):
             return None if r is None else r.output
         probe = Probe('probe', log=log, extra=extra)
         if v == 'explicit':
-            rpt = edzed.Repeat('rpt', dest=probe, etype='ev', interval=INTERVAL, count=count)
+            rpt = edzed.Repeat('rpt', dest=probe, etype=fresh('ev'), interval=INTERVAL, count=count)
             rpt_holder['r'] = rpt
-            senders = {1: edzed.ExtEvent(rpt, 'ev'), 0: edzed.ExtEvent(rpt, 'other')}
+            senders = {1: edzed.ExtEvent(rpt, fresh('ev')), 0: edzed.ExtEvent(rpt, fresh('other'))}
         elif v == 'implicit':
             src = edzed.Input(
                 'src', initdef='init',
@@ -213,10 +228,10 @@ def one_exec(cfg, chooser):
                                       f"Event(..., repeat={INTERVAL}, count={count}) created no Repeat block"))
             senders = {1: edzed.ExtEvent(src, 'put')}
         else:
-            r2 = edzed.Repeat('r2', dest=probe, etype='ev', interval=cfg['i2'], count=count)
-            r1 = edzed.Repeat('r1', dest=r2, etype='ev', interval=INTERVAL, count=cfg['c1'])
+            r2 = edzed.Repeat('r2', dest=probe, etype=fresh('ev'), interval=cfg['i2'], count=count)
+            r1 = edzed.Repeat('r1', dest=r2, etype=fresh('ev'), interval=INTERVAL, count=cfg['c1'])
             rpt_holder['r'] = r2
-            senders = {1: edzed.ExtEvent(r1, 'ev')}
+            senders = {1: edzed.ExtEvent(r1, fresh('ev'))}
 
         async def driver():
             simtask = asyncio.create_task(sim.circuit.run_forever())
@@ -420,8 +435,98 @@ def run_stall(cfg, acc):
     return viol
 
 
+def run_late(cfg, acc):
+    log = []
+    viol = []
+    res = {}
+    count = cfg['count']
+    with Sim() as sim:
+        loop = sim.loop
+        holder = {}
+        probe = Probe('probe', log=log, extra=lambda: holder['r'].output)
+        if cfg['variant'] == 'explicit':
+            rpt = edzed.Repeat('rpt', dest=probe, etype=fresh('ev'), interval=INTERVAL, count=count)
+            last_word = edzed.Event(rpt, fresh('ev'))
+        else:
+            last_word = edzed.Event(probe, 'ev', repeat=INTERVAL, count=count)
+            rpt = next(iter(sim.circuit.getblocks(edzed.Repeat)))
+        holder['r'] = rpt
+
+        def say(blk):
+            n0 = len(log)
+            res['ret'] = last_word.send(blk, tag='final')
+            res['sync'] = len(log) - n0
+            res['t_final'] = loop.now_us
+
+        class Sync(edzed.SBlock):
+            def init_regular(self):
+                self.set_output(0)
+
+            def stop(self):
+                if cfg['how'] == 'stop':
+                    say(self)
+                super().stop()
+
+        class Slow(edzed.AddonAsync, edzed.SBlock):
+            def init_regular(self):
+                self.set_output(0)
+
+            async def stop_async(self):
+                await asyncio.sleep(2)
+                say(self)
+        last = (Sync if cfg['how'] == 'stop' else Slow)('lastword')
+        first = edzed.Event(rpt, fresh('ev')) if cfg['variant'] == 'explicit' else last_word
+
+        async def driver():
+            task = asyncio.create_task(sim.circuit.run_forever())
+            await sim.circuit.wait_init()
+            if cfg['prior'] is not None:
+                first.send(last, tag='prior')
+                await loop.sleep_until_us(loop.now_us + cfg['prior'] * TICK)
+            res['n_before'] = len(log)
+            try:
+                await sim.circuit.shutdown()
+            except BaseException as err:    # pylint: disable=broad-except
+                res['error'] = repr(err)
+            res['out_end'] = rpt.output
+            res['n_end'] = len(log)
+            await loop.sleep_until_us(loop.now_us + (3 * INTERVAL + 1) * TICK)
+            del task
+        sim.run(driver())
+    acc.execs += 1
+    recs = [(t, d.get('tag'), d.get('repeat'), d.get('source'), d.get('orig_source'), out)
+            for (t, _n, _e, d, out) in log]
+    acc.outcome(('late', count, cfg['prior'], cfg['how'], cfg['variant'], tuple(recs)))
+    acc.state(('late', count, cfg['how'], cfg['variant'], res.get('sync')))
+    tag = (f"{cfg['variant']} Repeat(count={count}), prior event {cfg['prior']} s before shutdown(), last event "
+           f"sent from another block's {cfg['how']}() after the Repeat block was stopped")
+    if 'error' in res:
+        viol.append(('simulation-error:late', f"{tag}: {res['error']}"))
+        return viol
+    if 'sync' not in res:
+        viol.append(('driver-died:late', f"{tag}: the last event was never sent"))
+        return viol
+    finals = [r for r in recs if r[1] == 'final']
+    if res['sync'] != 1 or len(finals) != 1 or finals[0][2] != 0 or finals[0][0] != res['t_final']:
+        viol.append(('forward-immediately:late',
+                     f"{tag}: {res['sync']} deliveries during send(), deliveries of the last event: {finals}"))
+    elif finals[0][3] != rpt.name or finals[0][4] != 'lastword' or finals[0][5] != 0:
+        viol.append(('data-items:late', f"{tag}: delivered as {finals[0]}"))
+    elif res['out_end'] != 0:
+        viol.append(('output-not-repeat-number:late', f"{tag}: final output {res['out_end']!r}, last repeat number 0"))
+    if len(log) != res['n_end']:
+        viol.append(('resend-after-stop:late', f"{tag}: deliveries after shutdown(): {recs[res['n_end']:]}"))
+    if any(r[1] == 'final' and r[2] != 0 for r in recs):
+        viol.append(('resend-after-stop:late', f"{tag}: the last event was re-sent: {recs}"))
+    return viol
+
+
 def run_config(cfg):
     acc = Acc()
+    if cfg.get('kind') == 'late':
+        for sig, msg in run_late(cfg, acc):
+            acc.violation(f"C18:{sig}", msg, cfg=cfg)
+        return acc
     if cfg.get('kind') == 'stall':
         for sig, msg in run_stall(cfg, acc):
             acc.violation(f"C18:{sig}", msg, cfg=cfg)
